@@ -56,6 +56,7 @@ ASSUMPTIONS = [
     "on other modes is then exact (B commutes with A and with P), so only active-active exchanges are inexact",
     "relabelling fermionic modes multiplies the amplitude of |n> by the parity of sorting pi(occupied modes) (convention independent)",
     "a branch missing on one side is accepted when its weight on the other side is below the 1e-8 filter of sample_from_probability_map",
+    "NotImplementedCalculation is the library's documented 'outside the support'; a pair in which either program raises it is skipped",
 ]
 REQUIRED = ["relabel_pairs", "commute_pairs", "sampler_pairs", "state_comparisons", "branch_map_comparisons",
             "sample_comparisons", "hook_steps"]
@@ -671,6 +672,18 @@ def _compare_results(ctx, doc, partner, case, kind, obs_a, obs_b, pi, tol, ffock
     return hit
 
 
+def lossy_superposition(doc):
+    """PassiveSimulator, lossy, and the state is a superposition of several occupation vectors (after a Kerr gate or from a
+    multi-term FockStateVector): get_lossy_particle_number_probability weights the cross terms with conj(c_i) c_j swapped
+    (finding passive:lossy-probability-of-superposition-conjugated), so any two equivalent programs that distribute phases
+    differently between the coefficients and the transmission matrix disagree."""
+    if doc["sim"] != "passive" or not any(i["t"] in ("Loss", "LossyInterferometer", "UniformLoss") for i in doc["ins"]):
+        return False
+    if any(i["t"] in ("Kerr", "CrossKerr") for i in doc["ins"]):
+        return True
+    return any(i["t"] == "FockStateVector" and len(i["p"]["fock_amplitude_map"]["__map__"]) > 1 for i in doc["ins"])
+
+
 def ffock_sign_factor(doc, pi):
     """s0 for number-state inputs without measurements, None where the signed comparison is not defined."""
     if doc["sim"] != "ffock" or any(ins_kind(i) == "meas" for i in doc["ins"]):
@@ -707,6 +720,11 @@ def judge_pair(ctx, pq, kind, doc, partner, case, pi, base=None):
         if ra[2].zero_norm or rb[2].zero_norm:
             ctx.c["skipped_zero_norm_postselection"] += 1
             return ra
+        if isinstance(ea, NotImplementedCalculation) or isinstance(eb, NotImplementedCalculation):
+            # the library's explicit "outside the support" (e.g. Kerr on a lossy state, measurement of a materialised
+            # superposition): which of two equivalent orders is supported is not what the property is about
+            ctx.c["skipped_not_implemented"] += 1
+            return ra
         e = ea if ea is not None else eb
         ctx.viol("%s:%s:one-sided-exception:%s" % (kind, simname, type(e).__name__),
                  "%s raised %s at %s (%s) while %s ran" % (
@@ -719,6 +737,20 @@ def judge_pair(ctx, pq, kind, doc, partner, case, pi, base=None):
     if ra[2].steps != rb[2].steps and kind == "relabel":
         ctx.obs.add("a relabelled program ran a different number of branch steps than the original (branch filtered at the 1e-8 threshold)")
     tol = tolerance(doc)
+    n_before = len(ctx.violations)
+    try:
+        _judge_results(ctx, doc, partner, case, kind, ra, rb, pi, tol)
+    finally:
+        if lossy_superposition(doc):
+            for v in ctx.violations[n_before:]:
+                if v["mechanism"].endswith((":detection-probabilities", ":branch-weight", ":branch-missing")):
+                    v["mechanism"] = "passive:lossy-probability-of-superposition-conjugated"
+    ctx.classes.add(G.class_key(doc, "|" + kind))
+    return ra
+
+
+def _judge_results(ctx, doc, partner, case, kind, ra, rb, pi, tol):
+    simname = doc["sim"]
     if doc.get("shots") is None:
         oa = observe(ctx, doc, ra[1])
         ob = observe(ctx, partner, rb[1])
@@ -742,8 +774,6 @@ def judge_pair(ctx, pq, kind, doc, partner, case, pi, base=None):
                         ffock_sign_factor(doc, pi) if kind != "commute" else (1.0 if simname == "ffock" else None))
     else:
         judge_sampled(ctx, doc, partner, case, kind, ra[1], rb[1], pi, tol)
-    ctx.classes.add(G.class_key(doc, "|" + kind))
-    return ra
 
 
 def judge_sampled(ctx, doc, partner, case, kind, res_a, res_b, pi, tol):
@@ -1323,7 +1353,7 @@ def plan(tier, seed):
     specs = []
     k = 0
     reps = 1 if q else 2
-    mult = 1 if q else 5
+    mult = 1 if q else 4
     for rep in range(reps):
         for kind in ("relabel", "commute"):
             for sim in ALL_SIMS:
